@@ -276,7 +276,7 @@ def s5_history(ctx):
                 continue
             where = evs[0][0].site if evs else ctx.fn(qn).site()
             if not ctx.require(len(evs) == (1 if cw else 0), 'C01.S5', '%s: one history entry per cash movement on path [%s]' % (qn, cond_str(p)), where,
-                               '%d entries for %d cash writes' % (len(evs), len(cw)), key='C01.S5|%s|pairing' % qn):
+                               __import__('qsverif.lib', fromlist=['read_marker']).read_marker(ctx, p) + '%d entries for %d cash writes' % (len(evs), len(cw)), key='C01.S5|%s|pairing' % qn):
                 continue
             if not evs:
                 continue
